@@ -106,7 +106,7 @@ def extra(binary, build, tier, rng):
     cases = []
     for N in (8, 20):
         for off in (0, 1, 3, 4, 8, 248, 249, 250, 251, 252, 253, 254, 255, 256, 257, 509, 510, 511, 512):
-            for child, direct in (("splitf:64", "fill:64"), ("split32", "u32"), ("split", "u64"), ("clonef:5", "fill:5")):
+            for child, direct in (("splitf:64", "fill:64"), ("split32", "u32"), ("split", "u64"), ("clonef:5", "fill:5"), ("splitf:300", "fill:300"), ("clonef:259", "fill:259")):
                 head = "chacha n=%d key=9,8,7,6,5,4,3,2 ctr=3 str=%d ops=" % (N, (1 << 32) - 1)
                 cases.append((head + "fill:%d,%s" % (off, child), head + "fill:%d,%s" % (off, direct), 1))
     for _ in range(n):
